@@ -3,6 +3,7 @@
 PROPS = {}
 
 PROPS["C18"] = {
+    "xcheck": r"Constructors|HTTPStatusTable|GRPC",
     "level": "model_checking",
     "jobs": [
         {"name": "pkg", "pkg": "goa.design/goa/v3/pkg", "pkgdir": "pkg", "pkgname": "goa", "harness_dir": "pkg",
@@ -24,6 +25,7 @@ PROPS["C18"] = {
 }
 
 PROPS["C15"] = {
+    "xcheck": r"TextRoundTrip|RequestEncoder",
     "level": "model_checking",
     "jobs": [
         {"name": "http", "pkg": "goa.design/goa/v3/http", "pkgdir": "http", "pkgname": "http", "harness_dir": "http",
@@ -42,6 +44,7 @@ PROPS["C15"] = {
 }
 
 PROPS["C16"] = {
+    "xcheck": r"Dispatch",
     "level": "model_checking",
     "jobs": [
         {"name": "http", "pkg": "goa.design/goa/v3/http", "pkgdir": "http", "pkgname": "http", "harness_dir": "http",
@@ -61,6 +64,7 @@ PROPS["C16"] = {
 }
 
 PROPS["C19"] = {
+    "xcheck": r"RequestID|Capture|TraceHTTP",
     "level": "model_checking",
     "jobs": [
         {"name": "httpmw", "pkg": "goa.design/goa/v3/http/middleware", "pkgdir": "http/middleware", "pkgname": "middleware", "harness_dir": "httpmw",
@@ -81,6 +85,7 @@ PROPS["C19"] = {
 }
 
 PROPS["C17"] = {
+    "xcheck": r"IPFamilies",
     "level": "model_checking",
     "jobs": [
         {"name": "pkg", "pkg": "goa.design/goa/v3/pkg", "pkgdir": "pkg", "pkgname": "goa", "harness_dir": "pkg",
@@ -100,6 +105,7 @@ PROPS["C17"] = {
 }
 
 PROPS["C11"] = {
+    "xcheck": r"RootsOrder2|RootsSelf|LateRoot",
     "level": "model_checking",
     "jobs": [
         {"name": "eval", "pkg": "goa.design/goa/v3/eval", "pkgdir": "eval", "pkgname": "eval", "harness_dir": "eval",
@@ -116,6 +122,7 @@ PROPS["C11"] = {
 }
 
 PROPS["C13"] = {
+    "xcheck": r"HashCyclic|HashMetaOrder",
     "level": "model_checking",
     "jobs": [
         {"name": "expr", "pkg": "goa.design/goa/v3/expr", "pkgdir": "expr", "pkgname": "expr", "harness_dir": "expr",
